@@ -7,6 +7,7 @@ from ..rules_flow import ctor_rule, getitem_rule
 
 def run(ctx):
     r = ctx.report
+    r.skip.add("K16.references-kept")  # the product's reference list is C10/C11 business
     r.explanation = (
         "(1) Write-set with provenance from AbstractVector.assemble / AssemblyManager: every attribute or subscript "
         "store, del, augmented assignment and mutating method call reachable through the resolved call graph is listed "
